@@ -73,6 +73,17 @@ def cases(draw):
             if v["domain"] == dn and v["initial"] is not None:
                 v["initial"] = new[old.index(v["initial"])]
         desc["domains"][dn] = list(new)
+    if all(c["kind"] == "matrix" for c in desc["constraints"]) and draw(st.integers(0, 5)) == 0:
+        # integer costs beyond 2^53 (a big-M penalty plus a preference) in all-integer tables
+
+        def ints(t):
+            return all(ints(x) for x in t) if isinstance(t, list) else (isinstance(t, int) and not isinstance(t, bool))
+
+        def lift(t):
+            return [lift(x) for x in t] if isinstance(t, list) else (t + 10 ** 17 + 1 if t % 2 else t)
+        for c in desc["constraints"]:
+            if ints(c["table"]):
+                c["table"] = lift(c["table"])
     return {"dcop": desc, "mode": mode, "nsplit": draw(st.integers(2, 3)),
             "container": draw(st.sampled_from(CONTAINERS))}
 
@@ -101,6 +112,8 @@ def _split_sections(text, k):
 def _same_num(a, b):
     a = a.item() if hasattr(a, "item") else a
     b = b.item() if hasattr(b, "item") else b
+    if isinstance(b, int) and not isinstance(b, bool) and abs(b) > 2 ** 53:
+        return a == b      # an integer no float represents must come back as that very integer
     return oracles.close(a, b, 1e-12)
 
 
